@@ -349,6 +349,12 @@ def run_job(job, tier, keep=False, want_trace=False):
         res["samples"] = [{"obligation": r["property"], "description": r.get("description", "")[:160], "status": r["status"]}
                           for r in results if obligation_class(r) in ("postcondition", "assertion", "loop_invariant_step")][:4] \
             or [{"obligation": r["property"], "description": r.get("description", "")[:160], "status": r["status"]} for r in results[:3]]
+        # the solver gave up (memory): results carry status ERROR; undecided, and not a vacuity problem
+        if any(r["status"] == "ERROR" for r in results):
+            errs = [m for mt, m in msgs if mt == "ERROR"]
+            res["reason"] = "solver gave up (%d obligations with status ERROR): %s" % (
+                sum(1 for r in results if r["status"] == "ERROR"), " | ".join(str(x) for x in errs)[-400:])
+            return res
         # vacuity guards
         if res["canaries"] == 0:
             res["reason"] = "vacuity guard: harness has no CANARY"
